@@ -111,7 +111,7 @@ class RenderContext:
         """Add _key_ to the local namespace with value _val_."""
         self.locals[key] = val
         if (
-            self.env.local_namespace_limit
+            self.env.local_namespace_limit is not None
             and self.get_size_of_locals() > self.env.local_namespace_limit
         ):
             raise LocalNamespaceLimitError("local namespace limit reached", token=None)
@@ -316,7 +316,7 @@ class RenderContext:
         The default implementation uses `sys.getsizeof()` on each of the local
         namespace's values. It is not a reliable measure of size in bytes.
         """
-        if not self.env.local_namespace_limit:
+        if self.env.local_namespace_limit is None:
             return 0
         return (
             sum(sys.getsizeof(obj, default=1) for obj in self.locals.values())
@@ -450,7 +450,7 @@ class RenderContext:
     def raise_for_loop_limit(self, length: int = 1) -> None:
         """Raise a `LoopIterationLimitError` if loop stack is bigger than the limit."""
         if (
-            self.env.loop_iteration_limit
+            self.env.loop_iteration_limit is not None
             and reduce(
                 mul,
                 (loop.length for loop in self.loops),
